@@ -1672,11 +1672,19 @@ class Authenticated(BaseClientHandler):
             )
             return None
 
+        # NOTE: The message numbers of a COPY were chosen by a client that
+        #       has not been told about its pending EXPUNGE's yet: like FETCH,
+        #       STORE and SEARCH it gets a NO, instead of having other
+        #       messages copied than the ones it meant. (A UID COPY is fine.)
+        #
+        if not cmd.uid_command and self.pending_expunges():
+            raise No("There are pending EXPUNGEs.")
         await self.send_pending_notifications()
 
         # Wait until the mailbox gives us the go-ahead to run the command.
         #
         async with cmd.ready_and_okay(self.mbox):
+            await self._recheck_pending_expunges(cmd)
             try:
                 dest_mbox = await self.server.get_mailbox(cmd.mailbox_name)
                 if r"\Noselect" in dest_mbox.attributes:
@@ -1745,6 +1753,11 @@ class Authenticated(BaseClientHandler):
         if self.examine:
             raise No("Mailbox is read-only")
 
+        # (as for COPY: the numbers of a MOVE mean what the client has been
+        # told, so not while it has EXPUNGE's pending.)
+        #
+        if not cmd.uid_command and self.pending_expunges():
+            raise No("There are pending EXPUNGEs.")
         await self.send_pending_notifications()
 
         # Phase 1: Copy messages to the destination mailbox.
@@ -1756,6 +1769,7 @@ class Authenticated(BaseClientHandler):
         # of mailboxes in opposite directions.
         #
         async with cmd.ready_and_okay(self.mbox):
+            await self._recheck_pending_expunges(cmd)
             try:
                 dest_mbox = await self.server.get_mailbox(cmd.mailbox_name)
                 if r"\Noselect" in dest_mbox.attributes:
